@@ -309,3 +309,7 @@ def run(ctx):
     r5_stored_constant_is_the_converted_value(ctx)
     r6_const_errors_keep_their_kind(ctx)
     r7_only_the_folder_computes_on_literals(ctx)
+    # `the expression would have at run time`: the type the checker gives an expression is the tag the VM's result
+    # has (else no conversion is emitted where the expression is stored, while the folded constant is converted)
+    from . import c06
+    c06.r1_static_vs_dynamic(ctx, T, "C14.R8")
